@@ -172,9 +172,20 @@ def mask_rule(ctx):
     p = ctx.p
     res = RuleResult("UT-MASK", "mask constructors: alternating stride-2 pattern, prefix of length ceil(n/2), ceil(n/2) indices drawn without replacement; all start from zeros and add 1")
 
+    from ..astutil import int_formula_verdict
+
+    half_notes = []
+
     def ceil_half(e, n):
-        t = norm_text(e).replace(" ", "")
-        return t in ("%s//2if%s%%2==0else%s//2+1" % (n, n, n), "(%s+1)//2" % n, "%s-%s//2" % (n, n), "-(-%s//2)" % n, "math.ceil(%s/2)" % n)
+        """True / False / None: is `e` ceil(n / 2) for every size n >= 1?  Decided by evaluating
+        the closed integer formula on n = 1..96 (any spelling: //, %, >>, math.ceil, divmod ...)."""
+        if e is None:
+            return None
+        v = int_formula_verdict(e, n, lambda k: (k + 1) // 2, lo=1)
+        if v is True or v is None:
+            return v
+        half_notes.append("`%s` gives %s for %s = %d; ceil(%s / 2) is %d" % (norm_text(e), v[2], n, v[1], n, v[3]))
+        return False
 
     # alternating
     fi = _fn(p, TU, "create_alternating_binary_mask")
@@ -201,13 +212,17 @@ def mask_rule(ctx):
         core, stores = strip_stores(path.ret)
         zero = norm_text(core).replace(" ", "").startswith("torch.zeros(%s)" % n)
         okst = False
-        if len(stores) == 1 and isinstance(stores[0][0], ast.Slice) and stores[0][0].lower is None and stores[0][0].step is None and ceil_half(stores[0][0].upper, n):
+        half = None
+        if len(stores) == 1 and isinstance(stores[0][0], ast.Slice) and stores[0][0].lower is None and stores[0][0].step is None:
+            half = ceil_half(stores[0][0].upper, n)
             vt = norm_text(stores[0][1]).replace(" ", "")
-            okst = vt.endswith("+1") or vt == "1"
+            okst = bool(half) and (vt.endswith("+1") or vt == "1")
         if zero and okst:
             res.ok("create_mid_split_binary_mask: zeros; mask[:ceil(n/2)] += 1")
+        elif half is None and len(stores) == 1 and zero:
+            res.undecide("create_mid_split_binary_mask", "the prefix length `%s` is not a closed integer formula of %s" % (norm_text(stores[0][0])[:60], n))
         else:
-            res.fail(Finding("UT-MASK", fi.module, fi.qualname, path.ret_node, "mid-split mask must be ones on the prefix of length ceil(features / 2)"))
+            res.fail(Finding("UT-MASK", fi.module, fi.qualname, path.ret_node, "mid-split mask must be ones on the prefix of length ceil(features / 2)" + ("".join("; " + x for x in half_notes[-1:]))))
     # random
     fi = _fn(p, TU, "create_random_binary_mask")
     n = fi.params()[0][0]
@@ -223,14 +238,20 @@ def mask_rule(ctx):
                 rep = kw.get("replacement", idx.args[2] if len(idx.args) > 2 else None)
                 w = kw.get("input", idx.args[0] if idx.args else None)
                 uniform = w is not None and norm_text(w).replace(" ", "").startswith("torch.ones(%s)" % n)
-                if ns is not None and ceil_half(ns, n) and (rep is None or (isinstance(rep, ast.Constant) and rep.value is False)) and uniform:
+                half = ceil_half(ns, n)
+                if half and (rep is None or (isinstance(rep, ast.Constant) and rep.value is False)) and uniform:
                     okst = True
+                elif half is None and uniform:
+                    okst = None
             elif isinstance(idx, ast.Subscript) and "randperm" in norm_text(idx):
-                okst = isinstance(idx.slice, ast.Slice) and ceil_half(idx.slice.upper, n)
+                half = ceil_half(idx.slice.upper, n) if isinstance(idx.slice, ast.Slice) else False
+                okst = None if half is None else bool(half)
         if zero and okst:
             res.ok("create_random_binary_mask: ceil(n/2) distinct indices, uniformly, set to 1")
+        elif zero and okst is None:
+            res.undecide("create_random_binary_mask", "the number of ones is not a closed integer formula of %s" % n)
         else:
-            res.fail(Finding("UT-MASK", fi.module, fi.qualname, path.ret_node, "random mask must set exactly ceil(features / 2) distinct, uniformly drawn positions (multinomial(ones, ceil(n/2), replacement=False))"))
+            res.fail(Finding("UT-MASK", fi.module, fi.qualname, path.ret_node, "random mask must set exactly ceil(features / 2) distinct, uniformly drawn positions (multinomial(ones, ceil(n/2), replacement=False))" + ("".join("; " + x for x in half_notes[-1:]))))
     return res
 
 
